@@ -8,6 +8,7 @@
 
 __author__ = "Christian Donner"
 
+import jax
 from jax import numpy as jnp
 from . import factor
 from typing import Tuple, Dict
@@ -109,17 +110,21 @@ class GaussianMeasure(factor.ConjugateFactor):
         """Compute the log partition function."""
         if self.Sigma is None:
             self.invert_lambda()
-        nu_Lambda_nu = jnp.einsum(
-            "ab,ab->a", self.nu, jnp.einsum("abc,ac->ab", self.Sigma, self.nu)
-        )
-        self.lnZ = 0.5 * (
-            nu_Lambda_nu + self.D * jnp.log(2.0 * jnp.pi) + self.ln_det_Sigma
-        )
+        # Cached on the object: if the parameters are concrete the cache must be concrete too,
+        # also when the query is issued inside a jit/vmap trace (no leaked tracers).
+        with jax.ensure_compile_time_eval():
+            nu_Lambda_nu = jnp.einsum(
+                "ab,ab->a", self.nu, jnp.einsum("abc,ac->ab", self.Sigma, self.nu)
+            )
+            self.lnZ = 0.5 * (
+                nu_Lambda_nu + self.D * jnp.log(2.0 * jnp.pi) + self.ln_det_Sigma
+            )
 
     def invert_lambda(self):
         """Invert precision matrix."""
-        self.Sigma, self.ln_det_Lambda = invert_matrix(self.Lambda)
-        self.ln_det_Sigma = -self.ln_det_Lambda
+        with jax.ensure_compile_time_eval():
+            self.Sigma, self.ln_det_Lambda = invert_matrix(self.Lambda)
+            self.ln_det_Sigma = -self.ln_det_Lambda
 
     def __mul__(
         self,
@@ -275,7 +280,8 @@ class GaussianMeasure(factor.ConjugateFactor):
         """Converts from information to mean vector."""
         if self.Sigma is None:
             self.invert_lambda()
-        self.mu = jnp.einsum("abc,ac->ab", self.Sigma, self.nu)
+        with jax.ensure_compile_time_eval():
+            self.mu = jnp.einsum("abc,ac->ab", self.Sigma, self.nu)
 
     def get_density(self) -> "GaussianPDF":
         """Return the corresponing normalised density object.
@@ -1062,8 +1068,9 @@ class GaussianDiagMeasure(GaussianMeasure):
     """
 
     def invert_lambda(self):
-        self.Sigma, self.ln_det_Lambda = invert_diagonal(self.Lambda)
-        self.ln_det_Sigma = -self.ln_det_Lambda
+        with jax.ensure_compile_time_eval():
+            self.Sigma, self.ln_det_Lambda = invert_diagonal(self.Lambda)
+            self.ln_det_Sigma = -self.ln_det_Lambda
 
     def slice(self, indices: Int[Array, "R_new"]) -> "GaussianDiagMeasure":
         """Return an object with only the specified entries.
